@@ -277,9 +277,187 @@ def mirror_comparisons(fn, recorded_texts):
     return k
 
 
+def _stores(fn, name):
+    return [n for n in ast.walk(fn) if isinstance(n, ast.Name) and n.id == name and isinstance(n.ctx, (ast.Store, ast.Del))]
+
+
+def _loads(fn, name):
+    return [n for n in ast.walk(fn) if isinstance(n, ast.Name) and n.id == name and isinstance(n.ctx, ast.Load)]
+
+
+def simple_defs(fn, local_names):
+    """[[name, dump(RHS)]] in binding order for locals bound exactly once, by a plain `name = RHS` statement."""
+    out = []
+    for st in ast.walk(fn):
+        if isinstance(st, ast.Assign) and len(st.targets) == 1 and isinstance(st.targets[0], ast.Name):
+            v = st.targets[0].id
+            if v in local_names and len(_stores(fn, v)) == 1:
+                out.append([v, ast.dump(st.value, annotate_fields=False), getattr(st, "lineno", 0)])
+    out.sort(key=lambda x: x[2])
+    return [[a, b] for a, b, _ in out]
+
+
+def _blocks(fn):
+    for owner in ast.walk(fn):
+        for field in ("body", "orelse", "finalbody"):
+            blk = getattr(owner, field, None)
+            if isinstance(blk, list) and blk and isinstance(blk[0], ast.stmt):
+                yield owner, blk
+        if isinstance(owner, ast.Try):
+            for h in owner.handlers:
+                yield h, h.body
+
+
+def _header_exprs(st):
+    """Expressions of a statement that are evaluated exactly once when control reaches it."""
+    if isinstance(st, (ast.If,)):
+        return [st.test]
+    if isinstance(st, (ast.For, ast.AsyncFor)):
+        return [st.iter]
+    if isinstance(st, (ast.With, ast.AsyncWith)):
+        return [i.context_expr for i in st.items]
+    if isinstance(st, (ast.While, ast.Try, ast.FunctionDef, ast.AsyncFunctionDef, ast.ClassDef, ast.Match)):
+        return []
+    return [st]
+
+
+def _unconditional(root, target):
+    """True iff ``target`` (a node under ``root``) is evaluated whenever ``root`` is: not under a lambda,
+    comprehension, conditional expression or the later operands of and / or."""
+    def walk(n):
+        if n is target:
+            return True
+        for field, val in ast.iter_fields(n):
+            kids = val if isinstance(val, list) else [val]
+            for i, k in enumerate(kids):
+                if not isinstance(k, ast.AST):
+                    continue
+                if isinstance(n, (ast.Lambda, ast.ListComp, ast.SetComp, ast.DictComp, ast.GeneratorExp)):
+                    continue
+                if isinstance(n, ast.IfExp) and field in ("body", "orelse"):
+                    continue
+                if isinstance(n, ast.BoolOp) and field == "values" and i > 0:
+                    continue
+                if walk(k):
+                    return True
+        return False
+
+    return walk(root)
+
+
+def reextract(fn, recorded_defs, present):
+    """Undo `inline variable`: a recorded single-definition local that the function no longer has, while exactly one
+    statement contains (unconditionally evaluated) occurrences of its recorded right-hand side, is re-introduced
+    just before that statement.  Expressions are taken to be free of side effects, as every rule does."""
+    k = 0
+    for name, dump in recorded_defs:
+        if name in present or any(isinstance(n, ast.Name) and n.id == name for n in ast.walk(fn)):
+            continue
+        hits = []
+        for owner, blk in _blocks(fn):
+            for i, st in enumerate(blk):
+                for root in _header_exprs(st):
+                    for n in ast.walk(root):
+                        if isinstance(n, ast.expr) and not isinstance(n, (ast.Name, ast.Constant)) and ast.dump(n, annotate_fields=False) == dump and _unconditional(root, n):
+                            hits.append((blk, i, st, n))
+        if not hits or len({id(h[2]) for h in hits}) != 1:
+            continue
+        blk, i, st, _ = hits[0]
+        if isinstance(st, ast.Assign) and len(st.targets) == 1 and isinstance(st.targets[0], ast.Name) and any(h[3] is st.value for h in hits):
+            # `other = <recorded right-hand side>`: a renamed local, not an inlined one - left to the renaming
+            continue
+        value = hits[0][3]
+        targets = {id(h[3]) for h in hits}
+
+        class R(ast.NodeTransformer):
+            def visit(self, n):
+                if id(n) in targets:
+                    return ast.copy_location(ast.Name(id=name, ctx=ast.Load()), n)
+                return super().visit(n)
+
+        import copy
+
+        new_def = ast.Assign(targets=[ast.Name(id=name, ctx=ast.Store())], value=copy.deepcopy(value), lineno=getattr(st, "lineno", 1), col_offset=getattr(st, "col_offset", 0))
+        ast.copy_location(new_def, st)
+        ast.fix_missing_locations(new_def)
+        blk[i] = R().visit(st)
+        blk.insert(i, new_def)
+        present.add(name)
+        k += 1
+    return k
+
+
+def inline_new_locals(fn, recorded_names):
+    """Undo `extract variable`: a local the recorded source did not have, bound once by `v = E` where nothing E
+    reads is written afterwards in the function, is replaced by E at its uses (calls only when used once)."""
+    k = 0
+    changed = True
+    skip = _params(fn) | _nested_rebinders(fn)
+    while changed:
+        changed = False
+        for owner, blk in _blocks(fn):
+            for i, st in enumerate(blk):
+                if not (isinstance(st, ast.Assign) and len(st.targets) == 1 and isinstance(st.targets[0], ast.Name)):
+                    continue
+                v = st.targets[0].id
+                if v in recorded_names or v in skip or v == "_" or len(_stores(fn, v)) != 1:
+                    continue
+                loads = _loads(fn, v)
+                if not loads:
+                    continue
+                has_call = any(isinstance(x, (ast.Call, ast.Await, ast.NamedExpr, ast.Yield, ast.YieldFrom)) for x in ast.walk(st.value))
+                if has_call and len(loads) != 1:
+                    continue
+                # every use lies in a later statement of the same block (or nested in one)
+                later = set()
+                for st2 in blk[i + 1 :]:
+                    later |= {id(x) for x in ast.walk(st2)}
+                if any(id(l) not in later for l in loads):
+                    continue
+                # the definition must not sit in a loop body that the uses outlive, and nothing it reads may be
+                # written later
+                reads = {x.id for x in ast.walk(st.value) if isinstance(x, ast.Name)}
+                chains = {ast.unparse(x) for x in ast.walk(st.value) if isinstance(x, (ast.Attribute, ast.Subscript))}
+                unsafe = False
+                line = getattr(st, "lineno", 0)
+                last = max(getattr(l, "end_lineno", None) or getattr(l, "lineno", 0) for l in loads)
+                own = {id(x) for x in ast.walk(st.value)}
+                for x in ast.walk(fn):
+                    if id(x) in own:
+                        continue
+                    if isinstance(x, ast.Name) and isinstance(x.ctx, (ast.Store, ast.Del)) and x.id in reads and line <= getattr(x, "lineno", 0) <= last and x is not st.targets[0]:
+                        unsafe = True
+                    if isinstance(x, (ast.Attribute, ast.Subscript)) and isinstance(x.ctx, (ast.Store, ast.Del)) and line <= getattr(x, "lineno", 0) <= last:
+                        tx = ast.unparse(x)
+                        if any(c == tx or c.startswith(tx + ".") or c.startswith(tx + "[") or tx.startswith(c + ".") or tx.startswith(c + "[") for c in chains):
+                            unsafe = True
+                    if isinstance(x, (ast.For, ast.While)) and any(y is st for y in ast.walk(x)) and any(id(l) not in {id(z) for z in ast.walk(x)} for l in loads):
+                        unsafe = True
+                if unsafe:
+                    continue
+                ids = {id(l) for l in loads}
+                import copy
+
+                class S(ast.NodeTransformer):
+                    def visit_Name(self, n):
+                        return ast.copy_location(copy.deepcopy(st.value), n) if id(n) in ids else n
+
+                for j in range(i + 1, len(blk)):
+                    blk[j] = S().visit(blk[j])
+                del blk[i]
+                if not blk:
+                    blk.append(ast.copy_location(ast.Pass(), st))
+                k += 1
+                changed = True
+                break
+            if changed:
+                break
+    return k
+
+
 def normalise(project, path=PINNED):
     """Alpha-normalise every function of ``project`` in place; returns statistics for the evidence."""
-    stats = {"functions_recorded": 0, "functions_renamed": 0, "locals_renamed": 0, "comparisons_mirrored": 0, "examples": []}
+    stats = {"functions_recorded": 0, "functions_renamed": 0, "locals_renamed": 0, "comparisons_mirrored": 0, "locals_inlined": 0, "locals_reextracted": 0, "examples": []}
     if not os.path.exists(path):
         return stats
     with open(path) as fh:
@@ -290,18 +468,36 @@ def normalise(project, path=PINNED):
         fi = project.functions[q]
         if q not in rec:
             continue
+        rec_locals = [tuple(x) for x in rec[q].get("locals", [])]
+        rec_names = {x[0] for x in rec_locals}
+        rec_defs = [tuple(x) for x in rec[q].get("defs", [])]
         try:
-            m = plan(fi.node, [tuple(x) for x in rec[q].get("locals", [])])
+            for _round in range(8):
+                progress = 0
+                m = plan(fi.node, rec_locals)
+                if m:
+                    rename_in_function(fi.node, m)
+                    stats["locals_renamed"] += len(m)
+                    progress += len(m)
+                    if len(stats["examples"]) < 5:
+                        stats["examples"].append({"function": q, "renamed": m})
+                if rec[q].get("compares"):
+                    k = mirror_comparisons(fi.node, rec[q]["compares"])
+                    stats["comparisons_mirrored"] += k
+                    progress += k
+                k = inline_new_locals(fi.node, rec_names)
+                stats["locals_inlined"] += k
+                progress += k
+                present = {c[0] for c in function_locals(fi.node)}
+                k = reextract(fi.node, rec_defs, present)
+                stats["locals_reextracted"] += k
+                progress += k
+                if not progress:
+                    break
+                if _round == 0:
+                    stats["functions_renamed"] += 1
         except RecursionError:  # pragma: no cover
-            continue
-        if m:
-            rename_in_function(fi.node, m)
-            stats["functions_renamed"] += 1
-            stats["locals_renamed"] += len(m)
-            if len(stats["examples"]) < 5:
-                stats["examples"].append({"function": q, "renamed": m})
-        if rec[q].get("compares"):
-            stats["comparisons_mirrored"] += mirror_comparisons(fi.node, rec[q]["compares"])
+            pass
     return stats
 
 
@@ -313,6 +509,6 @@ def record(project):
         except RecursionError:  # pragma: no cover
             continue
         cs = compare_texts(fi.node)
-        if ls or cs:
-            out[q] = {"locals": [list(x) for x in ls], "compares": cs}
+        ds = simple_defs(fi.node, {x[0] for x in ls})
+        out[q] = {"locals": [list(x) for x in ls], "compares": cs, "defs": ds}
     return out
